@@ -107,6 +107,7 @@ structure Edge where
 inductive Act where
   | setOut (v : Val)                      -- `self.set_output(v)`
   | send (i : Nat) (value : Option Val)   -- `self.extra[i].send(self[, value=v])`
+  | trySend (i : Nat) (value : Option Val) -- `try: self.extra[i].send(self[, value=v])` / `except Exception: pass`
   | raise                                 -- `raise RuntimeError`
   | rawEvent (dest : Nat) (et : EType)    -- `circuit.findblock(dest).event(et)` (any object as type)
   deriving Repr, Inhabited
@@ -250,12 +251,24 @@ def setOutput (dlv : Dlv) (b : Blk) (d : Nat) (s : St) (v : Val) : St × Res :=
       andThen (sendEdges dlv d { s with out := upd s.out d v } b.onOutput data)
         (fun s2 => sendEdges dlv d s2 b.onEvery data)
 
+/-- `try: … except Exception: pass` around a statement: the handler swallows the exception
+    (the model artefact `outOfFuel` is not an exception of the code) -/
+def swallow (p : St × Res) : St × Res :=
+  match p.2 with
+  | .exc .outOfFuel => p
+  | .exc _ => (p.1, .ret .none)
+  | .ret _ => p
+
 def runAct (dlv : Dlv) (b : Blk) (d : Nat) (s : St) : Act → St × Res
   | .setOut v => setOutput dlv b d s v
   | .send i v =>
     match b.extra[i]? with
     | Option.none => (s, .exc .other)
     | some e => sendEdges dlv d s [e] (match v with | some v => [("value", v)] | Option.none => [])
+  | .trySend i v =>
+    match b.extra[i]? with
+    | Option.none => (s, .exc .other)
+    | some e => swallow (sendEdges dlv d s [e] (match v with | some v => [("value", v)] | Option.none => []))
   | .raise => (s, .exc .runtimeError)
   | .rawEvent x et => dlv s x et []
 
@@ -425,8 +438,9 @@ def deliver (c : Circ) : Nat → St → Nat → EType → Data → St × Res
     | some x => (s, .exc x)                           -- type checks precede the guard
     | Option.none =>
     if s.active d then
-      -- `raise EdzedCircuitError("Forbidden recursive event() call")`, outside of the `try`
-      ({ s with trace := .refused d :: s.trace }, .exc .circuitError)
+      -- `exc = EdzedCircuitError("Forbidden recursive event() call"); self.circuit.abort(exc); raise exc`
+      -- (outside of the `try`; the simulation is stopped here, whoever catches the exception)
+      ({ s.abort .circuitError with trace := .refused d :: s.trace }, .exc .circuitError)
     else
       let s1 := { s with active := upd s.active d true }
       -- try:
